@@ -85,9 +85,8 @@ def run(ctx, R, tier):
     dtc = ctx.fn("Pyro5.serializers.SerializerBase.dict_to_class")
     cfg = ctx.cfg(dtc)
     rd = ctx.rd(dtc)
-    cn_defs = [st for st, t, k in stores_in(dtc.node) if k == "assign" and isinstance(t, ast.Name) and isinstance(st.value, ast.Call)
-               and isinstance(st.value.func, ast.Attribute) and st.value.func.attr == "get" and st.value.args and
-               isinstance(st.value.args[0], ast.Constant) and st.value.args[0].value == "__class__"]
+    from .common import classname_defs
+    cn_defs = classname_defs(dtc.node)
     if not cn_defs:
         raise AnalysisError("dict_to_class: `classname = data.get('__class__', ...)` vanished")
     cname = cn_defs[0].targets[0].id
